@@ -13,8 +13,24 @@
                                           sides of the argument's bounding rectangle
   * `ringContainsLine_of_avoids`
   * `ringIntersectsSegment_of_avoids`, `ringIntersectsLine_strict_of_avoids` (hole tests)
+  * `ringIntersectsRing_strict_of_avoids` hole × ring: the ring with the smaller box area lies
+                                          strictly inside the other
   * `poly_contains_line_of_no_contact`   (build A).contains (build B) = Spec.covers A B,
                                           A any polygon value, B any line string
+  * `poly_contains_rect_of_no_contact`   … B a rectangle; needs `InteriorOK` for the holes of A
+                                          (the specification's `interiorPoint` works on them)
+  * `poly_contains_point_exact`          … B a point (no hypothesis at all, from C01)
+  * `poly_contains_poly_noholes_of_no_contact`  … B a polygon, neither side has holes
+  * `poly_contains_exact_of_no_contact`  the four cases above in one statement
+  * `poly_containsPoly_closed_form`      B a polygon with holes: the CODE's answer in closed form
+                                          (parity statements).  NOT PROVED: that this closed form
+                                          equals `Spec.covers` when holes are present — it needs
+                                          nesting lemmas for simple rings (transitivity of
+                                          "inside", no mutual nesting, a hole's interior point
+                                          reaches its boundary by a free segment), i.e. a
+                                          first-hit construction; brute force on 70 000 polygon
+                                          pairs with holes on both sides found no disagreement.
+  * `line_contains_of_no_contact`        Line ⊇ Line never holds without contact; code agrees
   * `ringContainsRing_shortcut_counterexample`,
     `poly_contains_general_position_counterexample`  — D19: the shortcut answers `true` for an
     argument that lies entirely OUTSIDE the ring, with no contact between the two shapes (the
@@ -22,7 +38,8 @@
     vertices of the ring, so that `ringContainsSegment` returns at site 7 for all four sides).
 -/
 import GeoProofs.Props.C03
-import GeoProofs.Contains.PolyLine
+import GeoProofs.Contains.LineLine
+import GeoProofs.Contains.Interior
 
 namespace Geo
 open GL Jordan Contains
@@ -69,6 +86,112 @@ theorem ringContainsRing_of_avoids_all (pts : Array Pt) (o : Series) (allowOnEdg
       have h0 : Spec.strictIn (Spec.edges pts.toList true) o.pts[0]! = true := this
       rw [← inRing_eq_strictIn_of_off (hc 0 (by omega)).1] at h0
       exact h0
+
+/-! ## the property in general position -/
+
+/-- Polygon ∋ Point: exact for all inputs (C01), restated against `Spec.covers` -/
+theorem poly_contains_point_exact (ext : List Pt) (holes : List (List Pt)) (p : Pt) :
+    (build (.poly ext holes)).contains (build (.point p)) =
+      Spec.covers (.poly ext holes) (.point p) := by
+  have h := polyContainsPoint_iff ext.toArray .none 0 (holes.map (fun h => (h.toArray, IndexKind.none, 0)))
+    (series_search_exact_kind_none _ true 0)
+    (fun h hh => by
+      obtain ⟨g, -, rfl⟩ := List.mem_map.1 hh
+      exact series_search_exact_kind_none _ true 0) p
+  simp only [List.map_map, Function.comp_def] at h
+  have hc : Spec.covers (.poly ext holes) (.point p) =
+      (decide (ext.length ≥ 3) && true && (Spec.Shape.poly ext holes).member p) := rfl
+  rw [hc]
+  show Poly.containsPoint ⟨some (.ser (mkSeries ext.toArray true .none 0)),
+    holes.map (fun h => .ser (mkSeries h.toArray true .none 0))⟩ p = _
+  rw [h]
+  simp only [List.map_id']
+  by_cases h3 : ext.length < 3
+  · rw [poly_member_eq, edges_nil_of_short ext h3, inRing_nil]
+    simp
+  · have : decide (ext.length ≥ 3) = true := by simp; omega
+    rw [this]
+    simp
+
+/-- Polygon ⊇ Polygon, neither with holes -/
+theorem poly_contains_poly_noholes_of_no_contact (ext oext : List Pt) (ho3 : 3 ≤ oext.length)
+    (hgp : NoContact (Spec.Shape.poly ext []).edges (Spec.Shape.poly oext []).edges)
+    (hsmall : RectClear ext oext true) :
+    (build (.poly ext [])).contains (build (.poly oext [])) =
+      Spec.covers (.poly ext []) (.poly oext []) := by
+  rw [poly_containsPoly_closed_form ext [] oext [] ho3 (fun _ h => by cases h) hgp hsmall
+    (fun _ h => by cases h)]
+  have hc : Spec.covers (.poly ext []) (.poly oext []) =
+      (decide (ext.length ≥ 3) && decide (oext.length ≥ 3) &&
+        ((Spec.edges oext true ++ []).all (fun e => Spec.segInside (Spec.Shape.poly ext []).member
+          (Spec.Shape.poly ext []).edges e.1 e.2) && true)) := rfl
+  rw [hc, List.append_nil]
+  have hne : ((true && decide (oext.toArray.size < 3)) || decide (oext.toArray.size < 2)) = false := by
+    simp; omega
+  have hgp' : NoContact (Spec.Shape.poly ext []).edges (Spec.edges oext.toArray.toList true) := by
+    intro e he f hf
+    exact hgp e he f (by unfold Spec.Shape.edges; simpa using hf)
+  have hall := edges_all_segInside ext [] oext.toArray true hne hgp'
+  rw [show oext.toArray.toList = oext from rfl] at hall
+  rw [hall, poly_member_eq]
+  have : decide (oext.length ≥ 3) = true := by simp; omega
+  rw [this]
+  by_cases h3 : ext.length < 3
+  · rw [edges_nil_of_short ext h3, inRing_nil]
+    simp
+  · have : decide (ext.length ≥ 3) = true := by simp; omega
+    rw [this]
+    simp
+
+/-- the arguments covered by `poly_contains_exact_of_no_contact` -/
+def Supported (ext : List Pt) (holes : List (List Pt)) : Spec.Shape → Prop
+  | .point _ => True
+  | .line l => RectClear ext l false
+  | .rect _ _ => ∀ h ∈ holes, 3 ≤ h.length ∧ InteriorOK h
+  | .poly oext oholes => holes = [] ∧ oholes = [] ∧ 3 ≤ oext.length ∧ RectClear ext oext true
+
+/-- **the property, in general position**: for a polygon receiver and a valid argument whose
+    edges meet no edge of the receiver, the code's `contains` is the exact specification.
+    `Supported` lists the side conditions: the D19 treatment (`RectClear`: fewer than 16 points,
+    or the receiver also avoids the argument's bounding rectangle), `InteriorOK` for the
+    receiver's holes when the argument is a rectangle, and — the part not proved — no holes on
+    either side when the argument is a polygon. -/
+theorem poly_contains_exact_of_no_contact (ext : List Pt) (holes : List (List Pt)) (B : Spec.Shape)
+    (hB : B.valid = true)
+    (hgp : NoContact (Spec.Shape.poly ext holes).edges B.edges)
+    (hsup : Supported ext holes B) :
+    (build (.poly ext holes)).contains (build B) = Spec.covers (.poly ext holes) B := by
+  cases B with
+  | point p => exact poly_contains_point_exact ext holes p
+  | line l => exact poly_contains_line_of_no_contact ext holes l hgp hsup
+  | rect lo hi => exact poly_contains_rect_of_no_contact ext holes lo hi hsup hB hgp
+  | poly oext oholes =>
+    obtain ⟨rfl, rfl, h3, hs⟩ := hsup
+    exact poly_contains_poly_noholes_of_no_contact ext oext h3 hgp hs
+
+/-! ### non-vacuity: the hypotheses are satisfiable (polygon with a hole; rectangle, line) -/
+
+example : (build (.poly sq10 [hole35])).contains (build (.rect ⟨6,6⟩ ⟨8,8⟩)) =
+    Spec.covers (.poly sq10 [hole35]) (.rect ⟨6,6⟩ ⟨8,8⟩) :=
+  poly_contains_exact_of_no_contact sq10 [hole35] (.rect ⟨6,6⟩ ⟨8,8⟩) (by decide +kernel)
+    (by unfold NoContact; decide +kernel)
+    (by
+      intro h hh
+      simp only [List.mem_singleton] at hh
+      subst hh
+      exact ⟨by decide, interiorOK_of_check _ (by decide +kernel)⟩)
+
+/-- a rectangle around the hole, in general position: correctly NOT contained -/
+example : (build (.poly sq10 [hole35])).contains (build (.rect ⟨2,2⟩ ⟨6,6⟩)) = false ∧
+    Spec.covers (.poly sq10 [hole35]) (.rect ⟨2,2⟩ ⟨6,6⟩) = false ∧
+    NoContact (Spec.Shape.poly sq10 [hole35]).edges (Spec.Shape.rect ⟨2,2⟩ ⟨6,6⟩).edges := by
+  unfold NoContact
+  decide +kernel
+
+example : (build (.poly sq10 [hole35])).contains (build (.line [⟨1,1⟩,⟨9,2⟩,⟨6,9⟩])) =
+    Spec.covers (.poly sq10 [hole35]) (.line [⟨1,1⟩,⟨9,2⟩,⟨6,9⟩]) :=
+  poly_contains_exact_of_no_contact sq10 [hole35] (.line [⟨1,1⟩,⟨9,2⟩,⟨6,9⟩]) (by decide +kernel)
+    (by unfold NoContact; decide +kernel) (fun h => absurd h (by decide))
 
 /-! ## finding D19: the ≥ 16-point rectangle shortcut is wrong in general position -/
 
@@ -122,6 +245,14 @@ end Geo
 #print axioms Geo.ringContainsLine_of_avoids
 #print axioms Geo.ringIntersectsSegment_of_avoids
 #print axioms Geo.ringIntersectsLine_strict_of_avoids
+#print axioms Geo.ringIntersectsRing_strict_of_avoids
 #print axioms Geo.poly_contains_line_of_no_contact
+#print axioms Geo.poly_contains_rect_of_no_contact
+#print axioms Geo.poly_contains_point_exact
+#print axioms Geo.poly_contains_poly_noholes_of_no_contact
+#print axioms Geo.poly_contains_exact_of_no_contact
+#print axioms Geo.poly_containsPoly_closed_form
+#print axioms Geo.line_contains_of_no_contact
+#print axioms Geo.interiorOK_of_check
 #print axioms Geo.ringContainsRing_shortcut_counterexample
 #print axioms Geo.poly_contains_general_position_counterexample
